@@ -57,6 +57,9 @@ type script struct {
 	Literals []literalScript `json:"literals"`
 	// Rest applies to every literal past the end of Literals (fresh copy per literal).
 	Rest literalScript `json:"rest"`
+	// Const gives a value for every draw at a choice point ("site/Method", "site<via/Method" or
+	// "*/Method") whose queue is empty; used for boundary vectors (all zero, all ones, ...).
+	Const map[string]json.Number `json:"const"`
 }
 
 type job struct {
@@ -66,7 +69,10 @@ type job struct {
 	XVars []string `json:"xvars"`
 	// Decls, if set, receives one [line, funcLitsBefore, funcLitsAfter] triple per top-level
 	// declaration of the input: a declaration gained function literals iff something in it was rewritten.
-	Decls  string `json:"decls"`
+	Decls string `json:"decls"`
+	// Plain: use the seeded generator directly (no scripting, no draw log); for jobs that only
+	// need the obfuscated file or the declaration report.
+	Plain  bool   `json:"plain"`
 	Script script `json:"script"`
 }
 
@@ -147,13 +153,16 @@ func (s *scriptedSource) where() (site, via, method string) {
 }
 
 func (s *scriptedSource) pop(site, via, method string) (json.Number, bool) {
-	if s.queues == nil {
-		return "", false
-	}
-	for _, key := range []string{site + "<" + via + "/" + method, site + "/" + method} {
+	keys := [...]string{site + "<" + via + "/" + method, site + "/" + method, "*/" + method}
+	for _, key := range keys[:2] {
 		if q := s.queues[key]; len(q) > 0 {
 			s.queues[key] = q[1:]
 			return q[0], true
+		}
+	}
+	for _, key := range keys {
+		if v, ok := s.sc.Const[key]; ok {
+			return v, true
 		}
 	}
 	return "", false
@@ -309,6 +318,9 @@ func runJob(j job) (res result) {
 	src := &scriptedSource{fallback: mathrand.NewSource(j.Script.Seed), sc: j.Script, cur: -1}
 	rnd := mathrand.New(src)
 	src.rnd = rnd
+	if j.Plain {
+		rnd = mathrand.New(mathrand.NewSource(j.Script.Seed))
+	}
 	names := 0
 	nameFunc := func(_ *mathrand.Rand, base string) string {
 		names++
